@@ -242,6 +242,8 @@ class CountLoop:
             return AbsVal("opaque")
         if isinstance(node, ast.ListComp):
             return self.callees.get("<listcomp>", lambda e, n, a: AbsVal("opaque"))(self, node, [])
+        if isinstance(node, ast.Tuple):
+            return AbsVal("tuple", [self.ev(e) for e in node.elts])
         return AbsVal("opaque")
 
     # ---- statements (single path with z3 If-merging is avoided: paths are split)
@@ -260,6 +262,11 @@ class CountLoop:
             tgt = st.targets[0] if isinstance(st, ast.Assign) else st.target
             if isinstance(tgt, ast.Name):
                 self.env[tgt.id] = v
+            elif isinstance(tgt, ast.Tuple) and all(isinstance(e, ast.Name) for e in tgt.elts):
+                # a, b = <tuple-valued expression>: element-wise when the abstract value is a tuple of the same length, else unknown
+                parts = v.z if v.kind == "tuple" and len(v.z) == len(tgt.elts) else [AbsVal("opaque")] * len(tgt.elts)
+                for e, pv in zip(tgt.elts, parts):
+                    self.env[e.id] = pv
             return self.run(rest, cont)
         if isinstance(st, ast.AugAssign) and isinstance(st.target, ast.Name):
             cur = self.env.get(st.target.id, AbsVal("opaque"))
@@ -293,6 +300,7 @@ class CountLoop:
             # havoc the variables assigned in the loop
             assigned = {n.id for s in ast.walk(st) for n in ([s.target] if isinstance(s, ast.AugAssign) else (s.targets if isinstance(s, ast.Assign) else []))
                         if isinstance(n, ast.Name)}
+            assigned |= {e.id for s in ast.walk(st) if isinstance(s, ast.Assign) for n in s.targets if isinstance(n, ast.Tuple) for e in n.elts if isinstance(e, ast.Name)}
             saved_facts = list(self.facts)
             for name in sorted(assigned):
                 cur = self.env.get(name)
